@@ -18,9 +18,10 @@ Hypothesis neg_mono : forall a b, leb a b = true -> neg b = true -> neg a = true
    as ALREADY MUTATED by the components before r, argsort, the literal breakpt/endpt arithmetic, `-1 *` applied in place to the
    chosen columns one after the other — returns, entry by entry, the Kruskal tensor of the one-shot model k_fixsigns_other_core
    (k_flip with the modes fso_modes decided on the ORIGINAL operands): every well-formed receiver A (all factor rows of length
-   rank A; any number of modes, any mode sizes), every reference B with at most as many components, every commutative ring,
-   every total comparison, every sign test that is downward closed w.r.t. it. *)
-Theorem C08_fixsigns_other_loop : forall A B : ktensor V, wf_k A -> krank B <= krank A ->
+   rank A; any number of modes, any mode sizes), every reference B — fewer, as many or MORE components than A (the loop runs over
+   range(min(RA, RB)) since /repo 8ac87f0; former finding C08-N2) —, every commutative ring, every total comparison, every sign
+   test that is downward closed w.r.t. it. *)
+Theorem C08_fixsigns_other_loop : forall A B : ktensor V, wf_k A ->
   py_fixsigns_other_core v0 v1 vadd vmul vopp neg leb A B = k_fixsigns_other_core v0 v1 vadd vmul vopp neg leb A B.
 Proof. exact (py_fixsigns_other_is_model V v0 v1 vadd vmul vsub vopp Vring neg leb leb_total neg_mono). Qed.
 
@@ -28,7 +29,7 @@ Proof. exact (py_fixsigns_other_is_model V v0 v1 vadd vmul vsub vopp Vring neg l
    sorted scores the new scores are the old ones with the first endpt negated; at most one stays negative, none when the number
    of negative scores was even *)
 Theorem C08_fixsigns_other_loop_normal_form : (forall x, neg x = true -> neg (vopp x) = false) ->
-  forall A B r, wf_k A -> krank B <= krank A -> r < krank B ->
+  forall A B r, wf_k A -> r < krank B -> r < krank A ->
   let s := fso_scores v0 vadd vmul A B r in let idx := argsort leb s in let ss := pick v0 idx s in
   let A' := py_fixsigns_other_core v0 v1 vadd vmul vopp neg leb A B in
   Sorted (fun a b => leb a b = true) ss /\
@@ -49,7 +50,7 @@ Theorem C08_normalize_wf : forall K : ktensor V, wf_k K ->
 Proof. exact (wf_normalize V v0 v1 vmul vopp vinv nrm pos neg root srt). Qed.
 
 (* the whole method (self.normalize(); other.copy().normalize(); loop) = the model C08_invariant_fixsigns_other speaks about *)
-Theorem C08_fixsigns_other_loop_full : forall A B : ktensor V, wf_k A -> wf_k B -> krank B <= krank A ->
+Theorem C08_fixsigns_other_loop_full : forall A B : ktensor V, wf_k A ->
   py_fixsigns_other V v0 v1 vadd vmul vopp vinv nrm pos neg root srt leb A B =
   k_fixsigns_other V v0 v1 vadd vmul vopp vinv nrm pos neg root srt leb A B.
 Proof. exact (py_fixsigns_other_full V v0 v1 vadd vmul vsub vopp Vring vinv nrm pos neg root srt leb leb_total neg_mono). Qed.
@@ -58,7 +59,7 @@ Proof. exact (py_fixsigns_other_full V v0 v1 vadd vmul vsub vopp Vring vinv nrm 
 Theorem C08_invariant_fixsigns_other_loop :
   (forall x, x <> v0 -> vmul x (vinv x) = v1) -> (forall x, pos x = true -> x <> v0) ->
   (forall l, pos (nrm l) = false -> Forall (fun y => y = v0) l) -> (forall l, is_perm (srt l) (length l)) ->
-  forall A B : ktensor V, wf_k A -> wf_k B -> krank B <= krank A ->
+  forall A B : ktensor V, wf_k A ->
   forall i, den_k v0 v1 vadd vmul (py_fixsigns_other V v0 v1 vadd vmul vopp vinv nrm pos neg root srt leb A B) i =
             den_k v0 v1 vadd vmul A i.
 Proof. exact (den_py_fixsigns_other V v0 v1 vadd vmul vsub vopp Vring vinv nrm pos neg root srt leb leb_total neg_mono). Qed.
@@ -71,7 +72,7 @@ Print Assumptions C08_fixsigns_other_loop_full.
 Print Assumptions C08_invariant_fixsigns_other_loop.
 
 (* the hypotheses are satisfiable: exact rationals, <=, "x < 0", exact 2-norm — the instance the correspondence check evaluates *)
-Theorem C08_fixsigns_other_loop_Qc : forall A B : ktensor Qcanon.Qc, wf_k A -> wf_k B -> krank B <= krank A ->
+Theorem C08_fixsigns_other_loop_Qc : forall A B : ktensor Qcanon.Qc, wf_k A ->
   qk_py_fixsigns_other A B = qk_fixsigns_other A B.
 Proof. exact qk_py_fixsigns_other_is_model. Qed.
 Print Assumptions C08_fixsigns_other_loop_Qc.
@@ -87,3 +88,12 @@ Example C08_example_fixsigns_other_loop :
   zk_py_fso_core A B = mkK [2; 3]%Z [[[-1; -2]; [-3; 1]]; [[2; 1]; [0; 1]; [1; 3]]; [[-1; 2]; [-4; -1]]]%Z /\
   zk_py_fso_core A B = zk_fso_core A B.
 Proof. vm_compute. repeat split; reflexivity. Qed.
+
+(* a reference with MORE components than the receiver (the former C08-N2 witness after both normalisations would need square
+   roots; integer stand-in with the same pattern): rank-1 receiver, rank-2 reference, both scores of component 0 negative ->
+   both factors negated; component 1 of the reference has no counterpart and is ignored *)
+Example C08_example_fixsigns_other_loop_more_components :
+  let A := mkK [5]%Z [[[1]; [2]]; [[3]; [4]]]%Z in
+  let B := mkK [1; 2]%Z [[[-1; -2]; [-2; 1]]; [[-3; 1]; [-4; -1]]]%Z in
+  zk_py_fso_core A B = mkK [5]%Z [[[-1]; [-2]]; [[-3]; [-4]]]%Z /\ zk_py_fso_core A B = zk_fso_core A B.
+Proof. vm_compute. split; reflexivity. Qed.
